@@ -135,6 +135,7 @@ package PVM
 // index of the new segment and exactly one segment is appended
 //@ func export
 //@   props C07 C04
+//@   opt slow=4
 //@   requires vm: hc_vm(input)
 //@   let full = uint64(input.Addition.RefineArgs.ExportSegmentOffset) + uint64(len(input.Addition.RefineArgs.ExportSegment)) > types.MaxExportCount
 //@   let idx0 = uint64(input.Addition.RefineArgs.ExportSegmentOffset) + uint64(len(input.Addition.RefineArgs.ExportSegment))
